@@ -1,6 +1,7 @@
 package mpb
 
 import "container/heap"
+import "github.com/vbauerster/mpb/v8/internal"
 
 type heapManager chan heapRequest
 
@@ -45,6 +46,7 @@ func (m heapManager) run() {
 	var sync bool
 
 	for req := range m {
+		internal.Gate("hm:req", int(req.cmd), bHeap.Len(), req.data)
 		switch req.cmd {
 		case h_push:
 			data := req.data.(pushData)
@@ -73,6 +75,7 @@ func (m heapManager) run() {
 			data := req.data.(iterData)
 		loop: // unordered iteration
 			for _, b := range bHeap {
+				internal.Gate("hm:iter", b)
 				select {
 				case data.iter <- b:
 				case <-data.drop:
@@ -87,6 +90,7 @@ func (m heapManager) run() {
 		loop_pop: // ordered iteration
 			for bHeap.Len() != 0 {
 				bar := heap.Pop(&bHeap).(*Bar)
+				internal.Gate("hm:pop", bar)
 				select {
 				case data.iterPop <- bar:
 				case <-data.drop:
@@ -120,16 +124,19 @@ func (m heapManager) run() {
 }
 
 func (m heapManager) sync(drop <-chan struct{}) {
+	internal.Gate("ct:hm", int(h_sync))
 	m <- heapRequest{cmd: h_sync, data: drop}
 }
 
 func (m heapManager) push(b *Bar, sync bool) {
 	data := pushData{b, sync}
 	req := heapRequest{cmd: h_push, data: data}
+	internal.Gate("ct:push", b)
 	select {
 	case m <- req:
 	default:
 		go func() {
+			internal.Gate("dp:send", b)
 			m <- req
 		}()
 	}
@@ -137,19 +144,23 @@ func (m heapManager) push(b *Bar, sync bool) {
 
 func (m heapManager) iter(drop <-chan struct{}, iter, iterPop chan<- *Bar) {
 	data := iterData{drop, iter, iterPop}
+	internal.Gate("ct:hm", int(h_iter))
 	m <- heapRequest{cmd: h_iter, data: data}
 }
 
 func (m heapManager) fix(b *Bar, priority int, lazy bool) {
 	data := fixData{b, priority, lazy}
+	internal.Gate("ct:hm", int(h_fix))
 	m <- heapRequest{cmd: h_fix, data: data}
 }
 
 func (m heapManager) state(ch chan<- bool) {
+	internal.Gate("ct:hm", int(h_state))
 	m <- heapRequest{cmd: h_state, data: ch}
 }
 
 func (m heapManager) end(ch chan<- interface{}) {
+	internal.Gate("ct:hm", int(h_end))
 	m <- heapRequest{cmd: h_end, data: ch}
 }
 
@@ -161,6 +172,7 @@ func syncWidth(matrix map[int][]chan int, drop <-chan struct{}) {
 
 func maxWidthDistributor(column []chan int, drop <-chan struct{}) {
 	var maxWidth int
+	internal.Gate("dist:start", column[0], len(column))
 	for _, ch := range column {
 		select {
 		case w := <-ch:
@@ -171,6 +183,7 @@ func maxWidthDistributor(column []chan int, drop <-chan struct{}) {
 			return
 		}
 	}
+	internal.Gate("dist:mid", column[0], maxWidth)
 	for _, ch := range column {
 		ch <- maxWidth
 	}
